@@ -212,12 +212,20 @@ def rule_immut(rep: Report, repo: Repo) -> None:
                     if rel in (PRE, ASM) and recv in ('self', 'preprocessor_data', 'binary_data'):
                         continue
                     sites.append((rel, q, recv, n.attr, n.lineno))
-    want = {('RepCall.eval_new', 'evaluated', 'source_iterator_name'), ('RepCall.rename_iterator', 'renamed', 'source_iterator_name'),
-            ('RepCall.calculate_times', 'self', 'repeat_times'), ('resolve_macro_aux', 'op', 'current_index')}
-    got = {(q, recv, attr) for _, q, recv, attr, _ in sites}
-    rep.check(got == want, 'C13.IMMUT', 'mutation-site inventory', f'unexpected {sorted(got - want)}; missing {sorted(want - got)}', OPS,
-              expected='exactly the four known sites (all on freshly cloned RepCall objects)')
-    ev, rn = repo.func(OPS, 'RepCall.eval_new'), repo.func(OPS, 'RepCall.rename_iterator')
+    # a store on a local that the same function has just constructed (`x = Cls(..)`; x.attr = ..) touches a fresh object and
+    # needs no entry; every other store must be one of the two reviewed sites, which the checks below tie to a cloned rep op
+    def fresh_local(rel: str, q: str, recv: str) -> bool:
+        fn = repo.func(rel, q)
+        defs = [s_.value for s_ in walk_no_nested(fn) if isinstance(s_, ast.Assign) and len(s_.targets) == 1 and norm(s_.targets[0]) == recv]
+        return bool(defs) and all(isinstance(v, ast.Call) and isinstance(v.func, ast.Name) and v.func.id[:1].isupper() for v in defs)
+    want = {('RepCall.calculate_times', 'self', 'repeat_times'), ('resolve_macro_aux', 'op', 'current_index')}
+    got = {(q, recv, attr) for rel_, q, recv, attr, _ in sites if not fresh_local(rel_, q, recv)}
+    n_fresh = sum(1 for rel_, q, recv, attr, _ in sites if fresh_local(rel_, q, recv))
+    rep.check(got == want, 'C13.IMMUT', 'mutation-site inventory', f'unexpected {sorted(got - want)}; missing {sorted(want - got)}; {n_fresh} store(s) on freshly '
+              'constructed locals', OPS, expected='only the two reviewed sites besides stores on objects constructed in the same function')
+    from ..pyfacts import expand_private_calls
+    ev = expand_private_calls(repo, OPS, repo.func(OPS, 'RepCall.eval_new'), 'RepCall', depth=2)
+    rn = expand_private_calls(repo, OPS, repo.func(OPS, 'RepCall.rename_iterator'), 'RepCall', depth=2)
     rep.check(_fresh_constructor_return(ev, 'RepCall') and _fresh_constructor_return(rn, 'RepCall'), 'C13.IMMUT', 'RepCall clones are fresh',
               'eval_new and rename_iterator always return a newly constructed RepCall', f'{OPS}:{ev.lineno}')
     # in resolve_macro_aux the mutated `op` is the result of rename_iterator(...).eval_new(...)
